@@ -120,6 +120,8 @@ pub struct Execution {
 #[derive(Clone)]
 pub enum Job {
     Tokenize { mode: Mode, texts: Vec<String> },
+    /// the same with a restricted field request (bits of InfoSubset)
+    TokenizeSubset { mode: Mode, subset: u32, texts: Vec<String> },
     Sentences { text: String },
 }
 
@@ -131,8 +133,11 @@ pub struct Driver {
 
 fn run_job(dict: &Dict, job: &Job) -> Vec<String> {
     match job {
-        Job::Tokenize { mode, texts } => {
+        Job::Tokenize { mode, texts } | Job::TokenizeSubset { mode, texts, .. } => {
             let mut tok = StatefulTokenizer::new(dict.clone(), *mode);
+            if let Job::TokenizeSubset { subset, .. } = job {
+                tok.set_subset(sudachi::dic::subset::InfoSubset::from_bits_truncate(*subset));
+            }
             let mut list = MorphemeList::empty(dict.clone());
             let mut out = Vec::new();
             for t in texts {
@@ -205,10 +210,11 @@ impl Driver {
         self.world.all_rows().iter().map(|(d, i, _)| WordId::new(*d as u8, *i as u32).as_raw()).collect()
     }
 
+    /// what each thread obtains when it is the only user of a newly loaded dictionary
     pub fn sequential(&self) -> (Vec<Vec<String>>, u64) {
         let d = self.fresh_dict();
         let fp0 = fingerprint(&d, &self.words());
-        (self.jobs.iter().map(|j| run_job(&d, j)).collect(), fp0)
+        (self.jobs.iter().map(|j| run_job(&self.fresh_dict(), j)).collect(), fp0)
     }
 
     /// run one schedule: replay `prefix`, then always continue the running thread (choice 0)
@@ -485,6 +491,8 @@ fn first_use_world() -> Arc<World> {
 
 fn drivers_for(tier: Tier, world: &Arc<World>, first: &Arc<World>) -> Vec<(Driver, Vec<usize>)> {
     let t = |m: Mode, v: &[&str]| Job::Tokenize { mode: m, texts: v.iter().map(|s| s.to_string()).collect() };
+    let ts = |m: Mode, bits: u32, v: &[&str]| Job::TokenizeSubset { mode: m, subset: bits, texts: v.iter().map(|s| s.to_string()).collect() };
+    const POS_ONLY: u32 = 1 << 2; // InfoSubset::POS_ID
     let w = || world.clone();
     match tier {
         Tier::Quick => vec![
@@ -494,6 +502,7 @@ fn drivers_for(tier: Tier, world: &Arc<World>, first: &Arc<World>) -> Vec<(Drive
             (Driver { label: "2 threads, katakana runs of different length".into(), world: w(), jobs: vec![t(Mode::C, &["アイアイウ"]), t(Mode::C, &["京都に行った"])] }, vec![0, 1, 2]),
             (Driver { label: "2 threads, first use of a system-only dictionary".into(), world: first.clone(), jobs: vec![t(Mode::C, &["か゛ｳﾞ三"]), t(Mode::A, &["は゜アー"])] }, vec![0, 1, 2]),
             (Driver { label: "3 threads, bracketed readings and different scripts".into(), world: w(), jobs: vec![t(Mode::C, &["京都（きょうと）に"]), t(Mode::C, &["東(ひがし)a1"]), t(Mode::A, &["カタカナ123abc"])] }, vec![0, 1]),
+            (Driver { label: "2 threads, different field requests on user-dictionary words".into(), world: w(), jobs: vec![ts(Mode::C, POS_ONLY, &["東京府すだち"]), t(Mode::A, &["東京府すだち"])] }, vec![0, 1, 2]),
         ],
         Tier::Thorough => vec![
             (Driver { label: "2 threads x 2 analyses".into(), world: w(), jobs: vec![t(Mode::A, &["東京都に行く二千三百円", "カタカタア(あ)"]), t(Mode::C, &["1,000円㍿東京府", "すだちxag-2f"])] }, vec![0, 1, 2]),
@@ -502,6 +511,7 @@ fn drivers_for(tier: Tier, world: &Arc<World>, first: &Arc<World>) -> Vec<(Drive
             (Driver { label: "2 threads, katakana runs of different length".into(), world: w(), jobs: vec![t(Mode::C, &["アイアイウとカタ"]), t(Mode::C, &["京都に行った"])] }, vec![0, 1, 2]),
             (Driver { label: "3 threads, first use of a system-only dictionary".into(), world: first.clone(), jobs: vec![t(Mode::C, &["か゛ｳﾞ三"]), t(Mode::A, &["は゜アー"]), t(Mode::B, &["二千(に)"])] }, vec![0, 1, 2]),
             (Driver { label: "3 threads, bracketed readings and different scripts".into(), world: w(), jobs: vec![t(Mode::C, &["京都（きょうと）に行く"]), t(Mode::C, &["東(ひがし)a1"]), t(Mode::A, &["カタカナ123abc"])] }, vec![0, 1, 2]),
+            (Driver { label: "3 threads, different field requests on user-dictionary words".into(), world: w(), jobs: vec![ts(Mode::C, POS_ONLY, &["東京府すだち"]), t(Mode::A, &["東京府すだち"]), ts(Mode::B, 0, &["ぴらる都府"])] }, vec![0, 1, 2]),
         ],
     }
 }
